@@ -12,7 +12,9 @@ import WuffsVerif.Model.ProbeVM
   init <selfnull01> <sizeofArg> <version> <options>       -> <status> <magic> <active>
   call <idx> <selfnull01> <args> <hint>                   -> <ret> <magic> <active>
       args: `/`-separated  p0 (NULL) | p1 | n<int> | o   (or `-`)
-      hint: the status the body produces if it runs (`ok`, `@…`, `$…`, `#…`), `v`/`z`/`-` for non-status
+      hint: the status the body produces if it runs (`ok`, `@…`, `$…`, `#…`), `v`/`z`/`-` for non-status;
+            `inner:#base:_…` = the body ran (harness evidence: outer magic/active_coroutine before and after)
+            and returned a protocol status of an embedded sub-object
   tmpl <p|i|c> <n|s|o> <coroID> <derived> <susp01> <bodyEndsWithReturn01> <emptybody01> <args>   -> feature vector
       derived: `,`-separated r.<name> | w.<name> (or `-`); args: `/`-separated <name>:<argspec> (or `-`)
   tmplinit                                                -> initializer event sequence
@@ -97,7 +99,8 @@ def errText : Err → String
   | .cannotReturnASuspension => "#base:_cannot_return_a_suspension"
   | .user _ => "#user"
 
-/-- Statuses only the protocol code produces: a body cannot return them. -/
+/-- Statuses only the protocol code produces: a body cannot return them (unless it passes on the status of
+an embedded sub-object's protocol layer: hint `inner:…`, see `innerProtocol`). -/
 def protocolOnly : List String :=
   ["#base:_bad_receiver", "#base:_bad_sizeof_receiver", "#base:_bad_wuffs_version",
    "#base:_initialize_falsely_claimed_already_zeroed", "#base:_initialize_not_called",
@@ -114,7 +117,27 @@ def hintBody (h : String) : BodyRes :=
   else if h.startsWith "@" then { path := .ok, st := .note 0, point := 0 }
   else { path := .ok, st := .ok, point := 0 }
 
+/-- Protocol statuses that a body can pass on: the protocol layer of an EMBEDDED sub-object (webp's vp8,
+png's zlib, …) produced them and the outer body returned them like any other error. -/
+def innerProtocol : List String :=
+  ["#base:_initialize_not_called", "#base:_disabled_by_previous_error",
+   "#base:_interleaved_coroutine_calls"]
+
+/-- `inner:<status>`: the harness saw, from the OUTER object's magic word and active_coroutine before and
+after the call, that the outer protocol layer let the call through (the body ran) on an object that embeds
+sub-objects, and the body returned this protocol status of a sub-object. -/
+def splitHint (h : String) : Bool × String :=
+  if h.startsWith "inner:" then (true, (h.drop 6).toString) else (false, h)
+
 def showRet (r : Ret) (hint : String) : String :=
+  let (inner, h) := splitHint hint
+  if inner then
+    match r with
+    | .st (.err (.user _)) => if innerProtocol.contains h then h else "bad-inner-hint:" ++ h
+    -- the harness says the body ran, the model says the protocol layer rejected: never equal to the impl line
+    | .st (.err e) => "protocol-rejected:" ++ errText e
+    | _ => "bad-inner-hint:" ++ h
+  else
   match r with
   | .zero => if hint == "-" then "-" else "z"
   | .value => if hint == "-" then "-" else "v"
@@ -276,7 +299,7 @@ def c08Step (st : DState) (l : List String) : DState × String :=
     match idx.toNat?, parseBool sn, parseArgVals args with
     | some idx, some sn, some av =>
       if idx < st.d.methods.length then
-        let (o', r) := step st.d st.o (.meth idx sn av (hintBody hint))
+        let (o', r) := step st.d st.o (.meth idx sn av (hintBody (splitHint hint).2))
         ({ st with o := o' }, showRet r hint ++ " " ++ showObj o')
       else (st, "bad-op")
     | _, _, _ => (st, "bad-op")
